@@ -39,6 +39,16 @@ PROFILES += [
 ]
 
 
+PROFILES += [
+    # tasks sharing a cumulative worker whose productivity is split unevenly over its elementary workers, with work amounts
+    S.profile(min_tasks=2, max_tasks=3, horizon=(2, 5), p_no_horizon=5, p_resources=100, n_workers=(1, 2), p_select=15, p_cumulative=100, p_cumulative_in_select=20, task_constraints=(0, 1),
+              optional_rules=(0, 0), resource_constraints=(0, 0), p_optional=15, p_work_amount=70, p_dynamic=5, p_delay=5),
+    # a task group as operand of a TaskPrecedence
+    S.profile(min_tasks=2, max_tasks=3, horizon=(3, 6), p_no_horizon=5, p_resources=20, task_constraints=(0, 1), optional_rules=(0, 0), resource_constraints=(0, 0), p_optional=30,
+              p_group_precedence=100, p_work_amount=5),
+]
+
+
 def prop(ctx, case):
     out = cands.completeness_case(ctx, case, "C05.completeness")
     if not out or not (out["n_valid"] or out.get("n_valid_any")):
